@@ -19,9 +19,15 @@ Theorem C08_efficiency_algebra : forall c rs ri,
   let e := efficiencies_from_counts c rs ri in
   (ri <> 0 -> eff_signal e = c / ri) /\ (ri = 0 -> eff_signal e = 0) /\
   (rs <> 0 -> eff_idler e = c / rs) /\ (rs = 0 -> eff_idler e = 0) /\
-  (rs <> 0 -> ri <> 0 -> eff_symmetric e = c / sqrt (rs * ri)) /\ (rs = 0 \/ ri = 0 -> eff_symmetric e = 0) /\
+  (rs <> 0 -> ri <> 0 -> eff_symmetric e = c / (sqrt rs * sqrt ri)) /\ (rs = 0 \/ ri = 0 -> eff_symmetric e = 0) /\
   eff_coincidences e = c /\ eff_signal_singles e = rs /\ eff_idler_singles e = ri.
 Proof. exact efficiencies_values. Qed.
+
+(* the code divides by sqrt(Rs)·sqrt(Ri) (fix F19: the product Rs·Ri can leave binary64); over the reals and for non-negative
+   rates this is the property's C / sqrt(Rs·Ri) *)
+Theorem C08_symmetric_property_form : forall c rs ri,
+  0 <= rs -> 0 <= ri -> rs <> 0 -> ri <> 0 -> eff_symmetric (efficiencies_from_counts c rs ri) = c / sqrt (rs * ri).
+Proof. exact symmetric_is_property_form. Qed.
 
 Theorem C08_efficiencies_in_unit_interval : forall c rs ri,
   0 <= c -> c <= rs -> c <= ri ->
@@ -155,6 +161,7 @@ Proof. exact example_pointwise. Qed.
 
 Print Assumptions C08_no_division_by_zero.
 Print Assumptions C08_efficiency_algebra.
+Print Assumptions C08_symmetric_property_form.
 Print Assumptions C08_efficiencies_in_unit_interval.
 Print Assumptions C08_symmetric_is_geometric_mean.
 Print Assumptions C08_nonneg.
